@@ -10,6 +10,9 @@ every returned count and byte for the state machines (toy cipher), `OK len:fnv .
 contents for the library round trip (`rt`) and the re-cut (`recut`) where the model's answer is
 computed from the case's contents alone; the implementation-side oracles (decoded = written,
 metadata, sizes, reads form the stream, re-cut changes nothing) are evaluated on every case.
+`csw` cases (every mix): the count every ChunkStreamWriter::write call returns and the bytes it emits, against
+Model/Sinks.v chunk_call_bytes — the premise "the writer below the CTR cipher takes whole writes" of Props/C01_sinks.v.
+    _stream.step_sinks(c, "C16")  # csw + CTR writer / round trip only (C16);  "C14": csw only
 Proof side: coq/Props/C01_stream_part.v.txt and C03_stream_part.v.txt (to be merged into
 Props/C01.v and Props/C03.v)."""
 
@@ -18,10 +21,27 @@ RULE = ("stream area: library round trips over 4 codecs x (none | AES, Camellia 
         "partitions single/bytewise/block-aligned/straddling/random with zero-length writes, read buffers "
         "1,7,10,15,16,17,4096 and random; FDAT/SDAT re-cuts at 1, 7, 16, 0-length and random sizes; state-machine "
         "cases (FlattenReader/Writer, CBC/CTR writer and reader with a toy cipher, AES/Camellia round trips through "
-        "the generic code) with arbitrary write/chunk/read partitions, malformed ciphertexts and wrong key lengths")
+        "the generic code) with arbitrary write/chunk/read partitions, malformed ciphertexts and wrong key lengths; "
+        "ChunkStreamWriter::write call by call (csw: count and emitted chunks, writes of 0..48 bytes, empty writes, "
+        "single writes of 65536..131073 bytes)")
 
 TRUSTED = ["harness/src/bin/stream.rs (toy cipher twin of Cbc.toy_E/toy_D, content generator twin of StreamRun.content_digest)",
            "lib/src/verif_hooks.rs stream wrappers"]
+
+
+RULE_SINKS = ("stream area, sinks mix: ChunkStreamWriter::write call by call (op csw: chunk types FDAT/SDAT/others, 0..6 writes per "
+              "case of lengths 0,1,2,3,4,7,8,15,16,17,31,32,33, random 0..48 and generated 0..5000, single writes of 65536, 65537, "
+              "70001, 131073 (+ 2^20, 200000, 300001 in thorough) bytes; outcome = returned count and the serialised chunks, or "
+              "their length and FNV-1a for generated writes); with C16 also the CTR writer and CTR round trip state machines")
+
+
+def step_sinks(c, prop):
+    """The sinks mix of the stream area (generator mix `prop` = C14: csw only; C16: csw + ctrw + ctr_rt): the count a
+    ChunkStreamWriter returns for every write and the chunks it emits for it, against Model/Sinks.v chunk_call_bytes
+    (Props/C01_sinks.v, C14_calls.v, C16_sinks.v: the writer below the CTR cipher takes whole writes)."""
+    if RULE_SINKS not in c.rule:
+        c.rule = (c.rule + " | " if c.rule else "") + RULE_SINKS
+    return c.correspondence("stream", ["stream"], gen_prop=prop)
 
 
 def step(c, prop):
